@@ -2,7 +2,7 @@
    history through the real watchers + converter and recorded, after every reconciliation,
    the hosts (paths with the servers they reach, certificate) of the haproxy model. *)
 From Coq Require Export List String ZArith NArith Bool.
-From HI Require Export Model.Tracker Model.Conv Model.ConvDB Model.ConvAnn.
+From HI Require Export Model.Tracker Model.Conv Model.ConvDB Model.ConvAnn Model.ConvOrch.
 Export ListNotations.
 Open Scope string_scope.
 
@@ -173,7 +173,32 @@ Fixpoint run_xsteps (y : ast) (l : list (astep * list (string * hobs) * list (st
 
 Definition xcase_ok (c : xcase) : bool := run_xsteps ((empty_state, []), fun _ => blank) (xsteps c).
 
-Inductive acase := CH (c : ccase) | CT (c : tcase) | CD (c : dcase) | CA (c : xcase).
+(* ---- histories with Gateway API objects, against Model/ConvOrch.v: the first reconciliation
+        is a full sync of both sources, every later one is sync_o (which decides between the
+        full sync and the ingress partial sync); G's output for the cluster of a step is what a
+        fresh controller builds for the gateway hostnames ---- *)
+Inductive ostep :=
+| OFull (w : oworld)
+| OStep (w : oworld) (b : obatch).
+
+Record ocase := { oid : N; osteps : list (ostep * list (string * hobs)) }.
+
+Fixpoint run_osteps (x : st) (l : list (ostep * list (string * hobs))) : bool :=
+  match l with
+  | [] => true
+  | (s, exp) :: r =>
+      match (match s with
+             | OFull w => Some (sync_full_o w)
+             | OStep w b => sync_o w x b
+             end) with
+      | None => false
+      | Some x' => step_ok x' exp && run_osteps x' r
+      end
+  end.
+
+Definition ocase_ok (c : ocase) : bool := run_osteps (empty_state, []) (osteps c).
+
+Inductive acase := CH (c : ccase) | CT (c : tcase) | CD (c : dcase) | CA (c : xcase) | CO (c : ocase).
 
 Definition mismatches (cs : list acase) : list N :=
   flat_map (fun a => match a with
@@ -181,6 +206,7 @@ Definition mismatches (cs : list acase) : list N :=
                      | CT c => if tcase_ok c then [] else [tid c]
                      | CD c => if dcase_ok c then [] else [did c]
                      | CA c => if xcase_ok c then [] else [xid c]
+                     | CO c => if ocase_ok c then [] else [oid c]
                      end) cs.
 
 (* diagnostics: index of the first failing step and the hosts that differ there *)
